@@ -57,7 +57,7 @@ def graph_shapes() -> dict[str, dict[str, list[str]]]:
 ANON = ('lx', 'ly')
 
 
-N_VARIANTS = 24
+N_VARIANTS = 48
 
 
 def wide_arity(ident: str) -> int:
@@ -75,16 +75,22 @@ def module_source(name: str, imports: list[str], variant: int) -> str:
 		return '\n'.join([f'def val() -> {ty}:', f'\treturn {lit}', '', f'v = {lit}', ''])
 	var_mode = (variant // 4) % 3
 	loc_mode = (variant // 12) % 2
+	deep = (variant // 24) % 2		# whitespace-only difference: `g` is a method of `A_<name>` (0) or of the nested `A_<name>.B` (1)
 	dotted = imports
 	name = name.replace('.', '_')
 	imports = [d.replace('.', '_') for d in imports]
-	lines = [f'from {PKG}.{d} import val, v' if d in ANON else f'from {PKG}.{d} import g_{i}, v_{i}, w_{i}' for d, i in zip(dotted, imports)]
+	lines = [f'from {PKG}.{d} import val, v' if d in ANON else f'from {PKG}.{d} import g_{i}, v_{i}, w_{i}, A_{i}' for d, i in zip(dotted, imports)]
 	gcall = {i: ('val()' if i in ANON else f'g_{i}()') for i in imports}
 	vname = {i: ('v' if i in ANON else f'v_{i}') for i in imports}
 	lines += ['', f'def g_{name}() -> {ty}:', f'\treturn {lit}', '']
 	n = wide_arity(name)
 	params = ', '.join([*(f'a{k}: int' for k in range(n - 1)), f'a{n - 1}: float'])
 	lines += [f'def w_{name}({params}) -> {ty}:', f'\treturn {lit}', '']
+	# re-indenting the last method moves it into the nested class: `A_<name>().g()` then is the inherited `P_<name>.g() -> int`
+	pad = '\t' * deep
+	lines += [f'class P_{name}:', '\tdef g(self) -> int:', '\t\treturn 1', '',
+		f'class A_{name}(P_{name}):', '\tclass B:', '\t\tdef f(self) -> int:', '\t\t\treturn 0', '',
+		f'{pad}\tdef g(self) -> {ty}:', f'{pad}\t\treturn {lit}', '']
 	if imports and var_mode == 1:
 		lines.append(f'v_{name} = {gcall[imports[0]]}')
 	elif imports and var_mode == 2:
@@ -103,6 +109,9 @@ def module_source(name: str, imports: list[str], variant: int) -> str:
 		args = ', '.join([*(str(j) for j in range(k - 1)), f'{k - 1}.0'])
 		lines.append(f'\ty_{i} = w_{i}({args})')
 	lines += ['\treturn 0', '']
+	for i in imports[:1]:
+		if i not in ANON:
+			lines += [f'def u_{name}(a: A_{i}) -> None:', '\tq = a.g()', '\tr = q', '\tprint(r)', '']
 	return '\n'.join(lines)
 
 
@@ -329,6 +338,24 @@ class RealCase:
 		if kind == 'clear':
 			self.proj.clear_cache()
 			return 'clear', None
+		if kind == 'gedit':
+			# the grammar FILE is edited in place (same path, new content and mtime): the aliases of True / False are exchanged
+			if not self.proj.grammar_path.endswith('.lark') or os.path.isabs(self.proj.grammar_path):
+				self.grammars += 1
+				self.proj.set_grammar_copy(f'g{self.grammars}.lark')
+			name = self.proj.grammar_path
+			path = os.path.join(self.proj.root, name)
+			with open(path, encoding='utf-8') as f:
+				text = f.read()
+			a, b = '| "True" -> const_true', '| "False" -> const_false'
+			a2, b2 = '| "True" -> const_false', '| "False" -> const_true'
+			text = text.replace(a, a2, 1).replace(b, b2, 1) if a in text else text.replace(a2, a, 1).replace(b2, b, 1)
+			with open(path, 'w', encoding='utf-8') as f:
+				f.write(text)
+			self.proj.next_mtime()
+			ns = int(tproj.CLOCK_BASE) * 1_000_000_000 + self.proj.tick * 250_000_000
+			os.utime(path, ns=(ns, ns))
+			return f'grammar\t{hx(name)}', None
 		if kind == 'grammar':
 			self.grammars += 1
 			name = f'g{self.grammars}.lark'
@@ -445,7 +472,7 @@ def stream_cachefs(ctx: Ctx) -> Stream:
 		for rec in load_corpus():
 			if rec.get('stream') == 'cachefs':
 				cases.append(case_cachefs(ctx, rng, lib, 0, bool(rec.get('seeded', True)), corpus_ops=rec['ops'], shape=rec['shape'], variants=rec['variants']))
-		n = ctx.scale(12, 48)
+		n = ctx.scale(7, 48)
 		for i in range(n):
 			seeded = (i % 5) != 0
 			cases.append(case_cachefs(ctx, rng, lib, ctx.scale(9, 16) if seeded else ctx.scale(5, 8), seeded))
@@ -579,10 +606,18 @@ def search_warm_cold(ctx: Ctx, only: list[tuple[str, dict[str, int], list[list[s
 					ops += [['edit', x, str(variants[y])], ['edit', y, str(variants[x])]]
 			ops.append(['run', '1'])
 			histories.append((shape, variants, ops))
-	n_random = ctx.scale(8, 80) if only is None else 0
+		# a whitespace-only edit that changes the meaning (a method moves into a nested class), and an in-place edit of the
+		# grammar file (True / False exchanged) between two runs over the same cache directory
+		shape = rng.choice(['chain2', 'chain3', 'vee'])
+		graph = graph_shapes()[shape]
+		variants = {m: 20 + (1 + i) % 3 + 1 for i, m in enumerate(graph)}		# str / float / bool: visible against the inherited int
+		leaf = [m for m in graph if not graph[m]][-1]
+		histories.append((shape, variants, [['run', '1'], ['edit', leaf, str(variants[leaf] + 24)], ['run', '1'], ['edit', leaf, str(variants[leaf])], ['run', '0']]))
+		histories.append(('chain2', {'a': 23, 'b': 23}, [['grammar'], ['run', '1'], ['gedit'], ['run', '1'], ['run', '0']]))
+	n_random = ctx.scale(5, 80) if only is None else 0
 	hist: dict[str, int] = {}
 	seen: set[str] = set()
-	budget_runs = ctx.scale(72, 400)
+	budget_runs = ctx.scale(60, 400)
 	runs = 0
 	for hi in range(len(histories) + n_random):
 		if runs >= budget_runs:
@@ -704,7 +739,7 @@ def search_truncation(ctx: Ctx, only: dict[str, Any] | None = None) -> SearchRes
 
 	# (2) whole runs over a damaged cache
 	n_states = ctx.scale(2, 4)
-	per_state = ctx.scale(14, 40)
+	per_state = ctx.scale(10, 40)
 	if only is not None:
 		n_states = 1 if only.get('search') == 'truncation-run' else 0
 	for si in range(n_states):
@@ -772,7 +807,7 @@ def search_disabled(ctx: Ctx, only: list[tuple[str, dict[str, int], list[list[st
 	for rec in load_corpus():
 		if rec.get('search') == 'disabled' and only is None:
 			plans.append((rec['shape'], rec['variants'], rec['ops']))
-	for _ in range(ctx.scale(4, 24) if only is None else 0):
+	for _ in range(ctx.scale(2, 24) if only is None else 0):
 		shape = rng.choice(list(graph_shapes()))
 		ops: list[list[str]] = []
 		if rng.random() < 0.7:
